@@ -43,6 +43,8 @@ func Concrete(x int) int                           { sym(); return 0 }
 func Injective(uf string)                          { sym() }
 func UFBytes(name string, n int, in ...[]byte) []byte { sym(); return nil }
 func UFBool(name string, in ...[]byte) bool        { sym(); return false }
+func Par(f, g func())                              { sym() }
+func Yield()                                       { sym() }
 func Note(s string)                                { sym() }
 
 // native-only helpers (no-ops symbolically)
